@@ -64,6 +64,30 @@ Theorem C31_padding :
 Proof. exact pad_minimal. Qed.
 Print Assumptions C31_padding.
 
+(* parametricity made precise: the reduction commutes with every homomorphism of hash algebras (for all three
+   kinds of outcome); hence what the code does on a free term algebra for a list of n opaque inputs
+   determines what it does for every hash function and all contents of that length — the reason the
+   correspondence run with free terms is exhaustive per length *)
+Theorem C31_parametric :
+  forall (T1 T2 : Type) (H1 : T1 -> T1 -> T1) (H2 : T2 -> T2 -> T2) (phi : T1 -> T2),
+    (forall a b, phi (H1 a b) = H2 (phi a) (phi b)) ->
+    forall e1 e2, phi e1 = e2 -> forall l : list T1,
+      py_reduce H2 e2 (map phi l) = map_outcome phi (py_reduce H1 e1 l).
+Proof. exact py_reduce_map. Qed.
+Print Assumptions C31_parametric.
+
+Theorem C31_free_term_universal :
+  forall (T : Type) (H : T -> T -> T) (e : T) (v : N -> T) (l : list term),
+    py_reduce H e (map (interp H e v) l) = map_outcome (interp H e v) (py_reduce HT Emp l).
+Proof. exact free_term_universal. Qed.
+Print Assumptions C31_free_term_universal.
+
+(* the postfix serialisation through which the correspondence run compares tree terms is injective
+   (inputs numbered below 2^16), so equal serialisations mean equal terms *)
+Theorem C31_ser_injective : forall t1 t2 : term, small t1 -> small t2 -> ser t1 = ser t2 -> t1 = t2.
+Proof. exact ser_injective. Qed.
+Print Assumptions C31_ser_injective.
+
 (* bytes level, Blake2b as an arbitrary function: _reduce_operation_hashes is the Merkle root with
    leaves blake(x), nodes blake(l ++ r), empty = blake("") *)
 Theorem C31_reduce_operation_hashes :
